@@ -90,8 +90,12 @@ def rule_c12_recording(prog: Program, col: Collector) -> None:
     getp = ("param", params[0])
     resets = [e for e in ft.calls("reset") if e.recv == envp]
     steps = [e for e in ft.calls("step") if e.recv == envp]
-    if len(steps) != 1 or not resets:
-        raise AnalysisError("eval_one: expected one env.reset() and one env.step() site")
+    if len(steps) != 1:
+        raise AnalysisError("eval_one: expected exactly one env.step() site")
+    if not resets:
+        col.violation(ref.where(), ref.short, "reset-first", "eval_one never resets the environment",
+                      "row 0 must be the gap at minimal information of THIS repetition's hidden game")
+        return
     step = steps[0]
     first_read = min([e.seq for e in ft.events if e.kind in ("store", "call") and e is not resets[0] and
                       any(isinstance(v, tuple) and has_subterm(v, ("attr", envp, "reward")) for v in e.data.values())] or [10 ** 9])
@@ -145,7 +149,7 @@ def rule_c12_recording(prog: Program, col: Collector) -> None:
               necessity="the action matrix holds the ids actually revealed")
     # key agreement with the writers
     keys = set()
-    for nm in ("step", "unstep"):
+    for nm in ("step",):
         g = prog.methods("icg_gym.ICG_Gym").get(nm)
         if g is not None:
             for r in fterms(prog, g).of_kind("return"):
@@ -187,6 +191,8 @@ def rule_c12_recording(prog: Program, col: Collector) -> None:
             ok_order = False
     col.check(ok_order, eref.where(), eref.short, "task tuples follow eval_one's parameter order", construct="task-order",
               necessity="a swapped tuple evaluates the wrong callable / limit")
+    gen_calls = [e for e in eft.calls() if e.func[0] == "param" and not e.args and e.func[1] in eparams]
+    fresh = fresh and bool(gen_calls) and all(any(f[0] == "comp" for f in e.ctx) for e in gen_calls)
     col.check(fresh, eref.where(), eref.short, "the env of each task is created by a fresh env_generator() call inside the comprehension",
               construct="fresh-env", necessity="distinct repetitions must not share an environment object")
     # both branches use eval_one
